@@ -11,6 +11,9 @@ package message
 //@ func (*Message).UnmarshalCBOR
 //@   property C10
 //@   requires m != nil && r != nil
+// the decoder takes from the reader what the message needs, field by field (every read is capped); it
+// never slurps the reader
+//@   ensures-local count("call:ReadAll") == 0 && count("call:ReadFrom") == 0
 //@   ghost n0 := 0
 //@   at call CborReadHeaderBuf#1: after ghost n0 := result1
 //@   at make#1: allocbound cap <= 8192
